@@ -6,4 +6,5 @@ Definition placement_actual : pquirks := {|
   q_global_on_covered := true;
   q_prefix_without_separator := true;
   q_path_relative_to_cwd := true;
-  q_allow_dict_unsupported := true |}.
+  q_allow_dict_unsupported := true;
+  q_trailing_slash_depth := true |}.
